@@ -1,6 +1,6 @@
 #!/bin/bash
 # usage: tools/soak.sh "<props>" "<seeds>" [tier] [extra args]   -- runs checks without touching evidence
-props=${1:-"C01 C04 C05 C06 C07 C09"}; seeds=${2:-"1 2 3"}; tier=${3:-quick}; shift 3
+props=${1:-"C01 C04 C05 C06 C07 C08 C09 C14 C17"}; seeds=${2:-"1 2 3"}; tier=${3:-quick}; shift 3
 for sd in $seeds; do for p in $props; do
   echo "=== $p seed=$sd tier=$tier"
   VERIF_SEED=$sd ./check $p --tier $tier --no-evidence --no-selftest "$@" 2>&1 | grep -E "VIOLATION|HARNESS|KNOWN|OK property|runs=|clause=|maxima|WARNING"
